@@ -1,7 +1,11 @@
 (* driver for m_evalorder:
-     run <fx_minmax> <fx_mcall> <fx_inplace> <fx_cascade> <stmt tokens...>   -> model of the generated code
+     run <fx_minmax> <fx_mcall> <fx_inplace> <fx_cascade> <fx_ccsimple> <fx_cckeep> <fx_ccrecv> <cc_sorted>
+         <stmt tokens...>                                                     -> model of the generated code
      ref <stmt tokens...>                                                     -> reference semantics
+     ccmap <cc_sort> <cc_keep> <npos> <ndecl> <names,..|-> <simple bits|->    -> OK t,t,.. | a,a,..  /  ERR  /  GAP
+     bsimple <expr tokens...>                                                 -> <is_simple() before analysis> <really simple>
    answer:  <events separated by blanks> | <tuple(r,x,y,z)> | <leaf tags> [| stuck]
+            REJECT | REJECT |          when the model of the compiler rejects a C call of the statement
    Statement tokens are the prefix serialisation written by props/C20.py (t_stmt). *)
 
 (* interning of operation names *)
@@ -18,8 +22,8 @@ let oseq s = OSeq (nat_of_int (intern s))
 (* ---- token parser ---- *)
 let toks = ref ([] : string list)
 let next () = match !toks with [] -> failwith "eof" | t :: r -> toks := r; t
-let var_index = function "x" -> 0 | "y" -> 1 | "z" -> 2 | "r" -> 3 | s -> failwith ("var " ^ s)
-let kind_code = function "T" -> 0 | "F" -> 1 | "U" -> 2 | "D" -> 3 | s -> failwith ("kind " ^ s)
+let var_index = function "x" -> 0 | "y" -> 1 | "z" -> 2 | "r" -> 3 | "kobj" -> 4 | s -> failwith ("var " ^ s)
+let kind_code = function "T" -> 0 | "F" -> 1 | "U" -> 2 | "D" -> 3 | "K" -> 7 | "I" -> 9 | s -> failwith ("kind " ^ s)
 let cmp_op = function
   | "in" -> OIn false | "notin" -> OIn true
   | s -> olog s
@@ -28,6 +32,7 @@ let rec p_expr () : expr =
   match next () with
   | "L" -> let k = kind_code (next ()) in let n = int_of_string (next ()) in ELeaf (nat_of_int k, nat_of_int n)
   | "N" -> EName (nat_of_int (var_index (next ())))
+  | "NONE" -> ENone
   | "B" -> let o = next () in let a = p_expr () in let b = p_expr () in EOp (olog o, [a; b])
   | "U" -> let o = next () in let a = p_expr () in
            if o = "not" then ENot a else EOp (olog o, [a])
@@ -75,6 +80,19 @@ let rec p_expr () : expr =
   | "F" -> let n = int_of_string (next ()) in
            let rec go i = if i = 0 then [] else let e = p_expr () in EOp (olog "format", [e]) :: go (i - 1) in
            EOp (oseq "join", go n)
+  | "Q" -> (* call of a C function: Q <name> <nreq> <ndecl> <default,..> <-|+ recv> <npos> <nkw> pos.. (idx expr).. *)
+           let fname = next () in
+           let nreq = int_of_string (next ()) in let ndecl = int_of_string (next ()) in
+           let dfl = next () in
+           let recv = (match next () with "-" -> ENone | _ -> p_expr ()) in
+           let npos = int_of_string (next ()) in let nkw = int_of_string (next ()) in
+           let rec go i = if i = 0 then [] else let e = p_expr () in e :: go (i - 1) in
+           let pos = go npos in
+           let rec gok i = if i = 0 then [] else
+               let d = int_of_string (next ()) in let e = p_expr () in (d, e) :: gok (i - 1) in
+           let kws = gok nkw in
+           ECCall (olog ("ccall/" ^ fname ^ "," ^ dfl), nat_of_int nreq, nat_of_int ndecl, recv, nat_of_int npos,
+                   List.map (fun (d, _) -> nat_of_int d) kws, pos @ List.map snd kws)
   | t -> failwith ("expr token " ^ t)
 
 and p_arg () : string * expr =
@@ -144,7 +162,8 @@ let rec pv (v : val0) : string =
        | 0 -> "T" ^ string_of_int k | 1 -> "F" ^ string_of_int k
        | 2 -> Printf.sprintf "tuple(U%da,U%db)" k k
        | 3 -> Printf.sprintf "dict(d%d:D%d)" k k
-       | 4 -> "x" | 5 -> "y" | 6 -> "z" | n -> "?leaf" ^ string_of_int n)
+       | 4 -> "x" | 5 -> "y" | 6 -> "z" | 7 -> "K" ^ string_of_int k | 8 -> "K0"
+       | 9 -> "?" ^ string_of_int k | n -> "?leaf" ^ string_of_int n)
   | VItem (i, VLeaf (kind, k)) when int_of_nat kind = 2 ->
       Printf.sprintf "U%d%s" (int_of_nat k) (if int_of_nat i = 0 then "a" else "b")
   | VItem (i, v) -> Printf.sprintf "item%d(%s)" (int_of_nat i) (pv v)
@@ -170,6 +189,22 @@ and pop (o : op) (args : val0 list) : string =
   | OIn _ -> plain "contains"
   | OLog id ->
       let (nm, shape) = split_shape (name_of (int_of_nat id)) in
+      if nm = "ccall" then begin
+        (* the callee logs its name and its parameters in declaration order (the receiver first),
+           omitted optional parameters show their defaults *)
+        match shape, args with
+        | fname :: dfl, recv :: vals ->
+            let given = List.map pv vals in
+            let rec pad i l d = match l, d with
+              | x :: r, _ :: d' -> x :: pad (i + 1) r d'
+              | x :: r, [] -> x :: pad (i + 1) r []
+              | [], x :: d' -> x :: pad (i + 1) [] d'
+              | [], [] -> [] in
+            let all = pad 0 given dfl in
+            let all = (match recv with VNone -> all | _ -> pv recv :: all) in
+            fname ^ "(" ^ String.concat "," all ^ ")"
+        | _ -> plain "ccall"
+      end else
       if nm = "call" then begin
         match args with
         | [] -> "call()"
@@ -211,15 +246,31 @@ let pe (e : event) : string =
 let result_string vars =
   "tuple(" ^ String.concat "," (List.map (fun i -> pv (vars (nat_of_int i))) [3; 0; 1; 2]) ^ ")"
 
+
 let b s = (s = "1")
+let nats_of s = if s = "-" || s = "" then [] else List.map (fun x -> nat_of_int (int_of_string x)) (String.split_on_char ',' s)
+let snats l = String.concat "," (List.map (fun k -> string_of_int (int_of_nat k)) l)
 
 let handle words =
   match words with
-  | "run" :: a :: bb :: c :: d :: rest ->
+  | ["ccmap"; so; ke; npos; ndecl; names; bits] ->
+      let bits = if bits = "-" then "" else bits in
+      let simple p = let i = int_of_nat p in i < String.length bits && bits.[i] = '1' in
+      (match ccmap (b so) (b ke) (nat_of_int (int_of_string npos)) (nat_of_int (int_of_string ndecl)) (nats_of names) simple with
+       | CMErr -> "ERR" | CMGap -> "GAP"
+       | CMOk (t, a) -> "OK " ^ snats t ^ " | " ^ snats a)
+  | "bsimple" :: rest ->
+      toks := rest;
+      let e = p_expr () in
+      if !toks <> [] then failwith "trailing tokens";
+      (if bsimple e then "1" else "0") ^ " " ^ (if tsimple e then "1" else "0")
+  | "run" :: a :: bb :: c :: d :: e5 :: f6 :: g7 :: h8 :: rest ->
       toks := rest;
       let s = p_stmt () in
       if !toks <> [] then failwith "trailing tokens";
-      let (st, m) = run_stmt (mk_flags (b a) (b bb) (b c) (b d)) s in
+      let fl = mk_flags8 (b a) (b bb) (b c) (b d) (b e5) (b f6) (b g7) (b h8) in
+      if stmt_rejected fl s then "REJECT | REJECT | " else
+      let (st, m) = run_stmt fl s in
       String.concat " " (List.map pe st.trace) ^ " | " ^ result_string st.mvars ^ " | "
       ^ String.concat "," (List.map (fun k -> string_of_int (int_of_nat k)) st.leaflog)
       ^ (match m with Normal -> "" | Skip l -> " | stuck " ^ string_of_int (int_of_nat l))
